@@ -316,3 +316,58 @@ Proof.
   intros s t s' [H|[H|[H|H]]]; step_inv H; cbn; auto;
     match goal with Hc : closes_on_fatal ?k = false |- _ => destruct k; cbn in Hc; discriminate end.
 Qed.
+
+(* ---- who may hold the read lock; Batch.Close ---- *)
+Definition holder_phase (p : phase) : bool :=
+  match p with Peeking | Reading | InBatch => true | _ => false end.
+
+Definition LockInv (s : state) : Prop :=
+  forall t, rlock s = Some t -> holder_phase (ph (thr s t)) = true.
+
+Lemma LockInv_init : LockInv init.
+Proof. intros t H. cbn in H. discriminate. Qed.
+
+Lemma LockInv_step : forall s l s', LockInv s -> step s l = Some s' -> LockInv s'.
+Proof.
+  intros s l s' L H u Hu. pose proof (L u) as Lu.
+  destruct l; step_inv H; unfold thr in *; simp_state; cbn [rlock] in *;
+    try discriminate; try (injection Hu as ->);
+    try (rewrite Nat.eqb_refl; reflexivity);
+    try match goal with |- context [Nat.eqb ?a ?b] =>
+      let E := fresh "E" in destruct (Nat.eqb a b) eqn:E;
+      [apply Nat.eqb_eq in E; subst|apply Nat.eqb_neq in E] end;
+    simp_state; auto;
+    try (specialize (Lu Hu); match goal with Hp : ph (lookup _ _) = _ |- _ => rewrite Hp in Lu end; discriminate).
+Qed.
+
+Lemma LockInv_run : forall ls s, run init ls = Some s -> LockInv s.
+Proof. intros ls s H. eapply (inv_run LockInv); [|exact LockInv_init|exact H]. intros; eapply LockInv_step; eauto. Qed.
+
+(* Batch.Close releases the read lock, and leaves the connection either closed or exactly where
+   it was with respect to frame boundaries (unless the C11 hypothesis label RKafkaLeft is used) *)
+Lemma batch_close_at_boundary_or_closed : forall s t r s',
+  step s (BatchClose t r) = Some s' -> r <> RKafkaLeft ->
+  rlock s' = None /\ (closed s' = true \/ misaligned s' = misaligned s) /\
+  holder_phase (ph (thr s' t)) = false.
+Proof.
+  intros s t r s' H N. step_inv H; try congruence; unfold thr; cbn; rewrite ?Nat.eqb_refl; cbn; auto;
+    match goal with Hc : closes_on_fatal ?k = false |- _ => destruct k; cbn in Hc; discriminate end.
+Qed.
+
+(* a closed Batch: Close again changes nothing, and Close proper is not enabled a second time *)
+Lemma batch_close_idempotent : forall s t s',
+  step s (BatchCloseAgain t) = Some s' -> s' = s.
+Proof. intros s t s' H. step_inv H; reflexivity. Qed.
+
+Lemma batch_close_once : forall s t r s' r',
+  step s (BatchClose t r) = Some s' -> step s' (BatchClose t r') = None.
+Proof.
+  intros s t r s' r' H. step_inv H; unfold step, thr; cbn; rewrite Nat.eqb_refl; reflexivity.
+Qed.
+
+(* in every reachable state a call that does not hold a Batch (any more) does not hold the lock *)
+Lemma closed_batch_holds_no_lock : forall ls s t, run init ls = Some s ->
+  holder_phase (ph (thr s t)) = false -> rlock s <> Some t.
+Proof.
+  intros ls s t H P E. rewrite (LockInv_run ls s H t E) in P. discriminate.
+Qed.
